@@ -68,6 +68,10 @@ func report(c *hx.Ctx, cs run.Case, res run.Result, human string) {
 		if cs.SharedWrites {
 			b.Model = "fresh build started on the host variables as the previous run must leave them, single run: " + res.Want[i].String()
 		}
+	} else if i := res.HostPanic(); i >= 0 {
+		b.Name = "runs-panic-into-host"
+		b.Impl = fmt.Sprintf("run %d of %d (input %+v): %s", i, len(res.Got), cs.Inputs[i], res.Got[i])
+		b.Model = "generated code never panics into the host (a run and its oracle that panic alike would compare equal and test nothing)"
 	} else if res.HostBad != "" {
 		b.Name = "shared-host-variables-differ"
 		b.Impl, b.Model = res.HostBad, "variables declared with a pointer are the host's own: every run reads and writes the host variable itself"
@@ -164,7 +168,7 @@ func runC10(c *hx.Ctx) error {
 		if r.BuildErr != "" {
 			return fmt.Errorf("toy template does not build: %s\n%s", r.BuildErr, t.cs.Files["index.txt"])
 		}
-		if r.Hang || r.Diff() >= 0 {
+		if r.Bad() {
 			report(c, t.cs, r, t.cs.Files["index.txt"])
 			if toyFailures++; toyFailures >= 2 {
 				break
@@ -285,9 +289,11 @@ func runC10(c *hx.Ctx) error {
 	}
 
 	// 2b. state across runs
-	if err := stateStream(c); err != nil {
+	stateSample, err := stateStream(c)
+	if err != nil {
 		return err
 	}
+	raceSample = append(raceSample, stateSample...)
 
 	// 3. the same kind of runs under the race detector (thorough tier; needs cgo)
 	if len(raceSample) > 0 {
